@@ -212,14 +212,21 @@ pub fn worker(prop: &str, tier: &str, seed: u64, from: u64, to: u64, out: &Path,
         std::thread::spawn(move || {
             let mut last = (u64::MAX, 0_u64);
             let mut since = Instant::now();
+            let mut cpu_since = own_cpu_secs();
             loop {
                 std::thread::sleep(Duration::from_millis(500));
                 let now = (current.load(Ordering::Relaxed), beat.load(Ordering::Relaxed) + crate::run::HEARTBEAT.load(Ordering::Relaxed));
                 let _ = std::fs::write(&progress, format!("{}", now.0));
+                // a hang is a call that burns HANG_SECS of CPU time without ending (wall-clock time
+                // says nothing on an oversubscribed or paused machine; it only bounds a call that
+                // neither ends nor computes)
                 if now != last {
                     last = now;
                     since = Instant::now();
-                } else if now.0 != u64::MAX && since.elapsed() > Duration::from_secs(HANG_SECS) {
+                    cpu_since = own_cpu_secs();
+                } else if now.0 != u64::MAX
+                    && (own_cpu_secs() - cpu_since > HANG_SECS as f64 || since.elapsed() > Duration::from_secs(HANG_SECS * 15))
+                {
                     println!("HANG run={}", now.0);
                     let _ = std::io::stdout().flush();
                     std::process::exit(3);
@@ -444,13 +451,37 @@ fn spawn_worker_with(prop: &str, tier: &str, seed: u64, from: u64, to: u64, tag:
 }
 
 /// Wait for a child at most `secs` seconds; a child that does not finish is killed (`None`).
+/// CPU time (user + system) a process has used so far, in seconds.
+fn proc_cpu_secs(pid: u32) -> Option<f64> {
+    let stat = std::fs::read_to_string(format!("/proc/{pid}/stat")).ok()?;
+    let rest = &stat[stat.rfind(')')? + 1..];
+    let f: Vec<&str> = rest.split_whitespace().collect();
+    // after the command name: state is field 0, utime field 11, stime field 12
+    let ticks = f.get(11)?.parse::<f64>().ok()? + f.get(12)?.parse::<f64>().ok()?;
+    let hz = unsafe { libc::sysconf(libc::_SC_CLK_TCK) };
+    Some(ticks / if hz > 0 { hz as f64 } else { 100.0 })
+}
+
+/// CPU time of this process, in seconds.
+pub fn own_cpu_secs() -> f64 {
+    let mut ts = libc::timespec { tv_sec: 0, tv_nsec: 0 };
+    unsafe { libc::clock_gettime(libc::CLOCK_PROCESS_CPUTIME_ID, &mut ts) };
+    ts.tv_sec as f64 + ts.tv_nsec as f64 * 1e-9
+}
+
+/// Wait for a child that executes one run. The limit is on the CPU time the child uses, not
+/// on the wall clock: a machine that is oversubscribed, or a virtual machine that was paused,
+/// must not turn a slow run into a "hang". (A child that neither finishes nor uses CPU is
+/// given fifteen times the limit on the wall clock.)
 fn wait_timeout(mut child: std::process::Child, secs: u64) -> Option<std::process::ExitStatus> {
     let t0 = Instant::now();
+    let pid = child.id();
     loop {
         match child.try_wait() {
             Ok(Some(st)) => return Some(st),
             Ok(None) => {
-                if t0.elapsed() > Duration::from_secs(secs) {
+                let cpu = proc_cpu_secs(pid).unwrap_or(0.0);
+                if cpu > secs as f64 || t0.elapsed() > Duration::from_secs(secs * 15) {
                     let _ = child.kill();
                     let _ = child.wait();
                     return None;
@@ -919,7 +950,7 @@ pub fn replay_file(path: &Path) -> i32 {
                     return 1;
                 }
                 None => {
-                    println!("reproduced with {how}: the child process did not finish within {} s (hang)", HANG_SECS + 10);
+                    println!("reproduced with {how}: the child process did not finish within {} s of CPU time (hang)", HANG_SECS + 10);
                     println!("VIOLATION property={} replay={}", r.property, path.display());
                     return 1;
                 }
